@@ -44,33 +44,29 @@ pub fn preprocess(expr: &str, file_id: FileID) -> Result<String, Box<Report>> {
                 pp.push(c0);
                 state = 0;
             }
+            // State 3: inside a block comment, and the previous character was `*`.
             (2, '*') => {
-                loc += 1;
-                match it.next() {
-                    Some('/') => {
-                        pp.push(' ');
-                        pp.push(' ');
-                        state = 0;
-                    }
-                    Some(c) => {
-                        pp.push(' ');
-                        for _i in 0..c.len_utf8() {
-                            pp.push(' ');
-                        }
-                    }
-                    None => {
-                        let error =
-                            UnclosedCommentError { location: block_start..block_start, file_id };
-                        return Err(Box::new(error.into_report()));
-                    }
-                }
+                pp.push(' ');
+                state = 3;
             }
+            (3, '/') => {
+                pp.push(' ');
+                state = 0;
+            }
+            (3, '*') => pp.push(' '),
             (_, c) => {
                 for _i in 0..c.len_utf8() {
                     pp.push(' ');
                 }
+                if state == 3 {
+                    state = 2;
+                }
             }
         }
+    }
+    if state == 2 || state == 3 {
+        let error = UnclosedCommentError { location: block_start..block_start, file_id };
+        return Err(Box::new(error.into_report()));
     }
     Ok(pp)
 }
